@@ -252,6 +252,17 @@ def r18_7(ctx, rep):
                    "component) is judged by the wrong level and is left unexpanded or expanded with the wrong element count" % (part[0] if part else ""))
 
 
+@SPEC.rule(
+    "R18.8",
+    "names are taken apart by pattern, not by character set: model.py removes no prefix or suffix (the `der(` ... `)` wrapper of a "
+    "derivative's name) with str.strip/lstrip/rstrip and a multi-character argument — `\"depth\".lstrip(\"der(\")` is `pth`, and the "
+    "expanded derivatives of a state called depth, error or rate would be named after a variable that does not exist",
+)
+def r18_8(ctx, rep):
+    from ._literal import no_charset_strip
+    no_charset_strip(ctx, rep, "R18.8", MODEL, "the CasADi model, _expand_vectors in particular")
+
+
 # -- seeded variants ---------------------------------------------------------
 from ._mut import replace_in_func  # noqa: E402
 
